@@ -169,6 +169,13 @@ def oracle_api(ctx, n):
         with contextlib.redirect_stdout(io.StringIO()):
             shx.read_string(text)
         case = {'cell': cell, 'text': text}
+        if rng.random() < 0.4:
+            # an atom that was not read from the file but added through the API: its Cartesian position comes from another conversion routine
+            xyz_new = [round(rng.uniform(0.2, 0.8), 5) for _ in range(3)]
+            with contextlib.redirect_stdout(io.StringIO()):
+                shx.add_atom(name='C77', coordinates=list(xyz_new), element='C', uvals=[0.04, 0.0, 0.0, 0.0, 0.0, 0.0], part=0, sof=11.0)
+            atoms.append({'name': 'C77', 'xyz': xyz_new, 'part': 0, 'q': False, 'resi': 0})
+            case['edited'] = 'add_atom(C77, %s)' % xyz_new
         ia = shx.atoms.all_atoms
         if len(ia) != len(atoms):
             common.add_violation(ctx, 'generated file not read completely', case, len(atoms), len(ia))
